@@ -99,8 +99,11 @@ def tdir():
         os.makedirs(_TREE, exist_ok=True)
         # keep the cache bounded: drop other trees' stream outputs
         for d in glob.glob(os.path.join(CACHE, "t-*")):
-            if d != _TREE and time.time() - os.path.getmtime(d) > 3600:
-                shutil.rmtree(d, ignore_errors=True)
+            try:
+                if d != _TREE and time.time() - os.path.getmtime(d) > 3600:
+                    shutil.rmtree(d, ignore_errors=True)
+            except OSError:
+                pass   # another check pruned it concurrently
     return _TREE
 
 
@@ -551,7 +554,7 @@ RT_PROPS = {
     "C09": dict(profiles=["mix", "query", "churn", "clone"], ops={"todirect", "probe", "iter", "iterb", "iterd", "find", "findb", "destroy", "write"}, summary=True),
     "C12": dict(profiles=["grow", "churn", "mix"], ops={"new", "create", "createw", "destroy", "dump", "iterd"}, summary=True),
     "C13": dict(profiles=["clone", "mix"], ops={"clone", "switch", "probe", "rows", "events", "dump", "drop", "create", "createw", "destroy"}, summary=True),
-    "C14": dict(profiles=["forge", "mix"], ops={"conv", "forge", "create", "createw"}, summary=False),
+    "C14": dict(profiles=["forge", "mix", "churn"], ops={"conv", "cmp", "forge", "create", "createw"}, summary=False),
     "C17": dict(profiles=["events", "mix", "clone"], ops={"events", "clear"}, summary=False),
     "C11": dict(profiles=["borrow", "mix"], ops={"nest"}, summary=False),
     # C10: everything observed after a panic matters, so every op kind is in the footprint
@@ -649,7 +652,9 @@ def decide(prop, tier, seed, lean, streams, concerns_fn, extra_cov=None, t0=None
             if concerns_fn(line):
                 broken_tie.append(("mismatch", s, line))
                 break
-        if s.get("summary") and s["summary"].get("model_ub", "0") != "0":
+        # the model reaching `ub` always shows as a disagreement on that line (handled above, with the
+        # root-cause rule); it is charged separately only if no line-level disagreement exists
+        if s.get("summary") and s["summary"].get("model_ub", "0") != "0" and not s.get("mismatches"):
             broken_tie.append(("model-ub", s, "the model reached undefined behaviour while replaying the implementation trace"))
     # 3. broken proof obligations
     broken_proof = list(lean["broken"])
@@ -669,14 +674,17 @@ def decide(prop, tier, seed, lean, streams, concerns_fn, extra_cov=None, t0=None
         kind, s, h = violations[0]
         ops = seq_ops(s["trace"], h["seq"])
         cfg = s["config"]
-        pred = lambda r: any(x["property"] == prop and x["class"] == h["class"] for x in r["hits"])
+        pred = lambda r: any((x["property"] == prop or prop == "C19") and x["class"] == h["class"] for x in r["hits"])
+        what = h["what"]
         try:
             small, final, trace_text = shrink(cfg, ops, pred)
+            # describe the failure as it shows on the SHRUNK sequence
+            what = next((x["what"] for x in final["hits"] if (x["property"] == prop or prop == "C19") and x["class"] == h["class"]), what)
         except Exception as e:  # noqa
             small, trace_text = ops, ""
         replay_path = write_replay(prop, "oracle-" + h["class"], {
             "property": prop, "kind": "oracle", "config": cfg, "seed": seed, "profile": s["profile"],
-            "what": h["what"], "class": h["class"], "ops": small, "trace": trace_text.splitlines()})
+            "what": what, "class": h["class"], "ops": small, "trace": trace_text.splitlines()})
         print(f"VIOLATION property={prop} replay={replay_path}")
         rc = 1
     elif broken_tie or broken_proof:
@@ -709,7 +717,22 @@ def decide(prop, tier, seed, lean, streams, concerns_fn, extra_cov=None, t0=None
                     "seed": seed, "broken_obligations": broken_proof,
                     "broken_correspondence": [{"kind": k, "config": s["config"], "profile": s.get("profile"), "detail": str(d)[:3000]} for (k, s, d) in broken_tie[:5]],
                     "note": "no concrete input violating the property itself was found within the search budget; the property is no longer shown to hold"}
-            if broken_tie and broken_tie[0][0] == "mismatch":
+            if broken_tie and broken_tie[0][0] == "crash" and broken_tie[0][1].get("trace") and broken_tie[0][1].get("harness_rc"):
+                # the harness process died: the last sequence of its trace ends with the op that
+                # killed it (ops are flushed before they run); shrink that sequence on "still dies"
+                k, s, d = broken_tie[0]
+                try:
+                    hdrs = [x.header for x in oracles.parse_trace(s["trace"])]
+                    ops = seq_ops(s["trace"], hdrs[-1])
+                    pred = lambda r: r["rc"] != 0
+                    small, final, trace_text = shrink(s["config"], ops, pred)
+                    if final["rc"] != 0:
+                        data.update({"config": s["config"], "ops": small, "trace": trace_text.splitlines()[-40:],
+                                     "crash": {"exit_code": final["rc"], "stderr": final["stderr"][-600:]},
+                                     "how": "harness/rt `rt run` on these ops exits abnormally (the implementation aborts or an internal assertion fails outside any guarded call)"})
+                except Exception as e:  # noqa
+                    data["shrink_error"] = repr(e)
+            elif broken_tie and broken_tie[0][0] == "mismatch":
                 k, s, line = broken_tie[0]
                 p = mismatch_parts(line)
                 try:
